@@ -12,7 +12,7 @@ CONSTANTS Tier, Slice, Depth, ReAsks, MaxSteps
 
 VARIABLE expect         \* what the reference semantics says each request observes
 
-vars == <<prog, query, nodes, stack, ret, nextId, stop, outbuf, hist, phase, acts, steps, fireAt, crSeen, expect>>
+vars == <<prog, query, nodes, stack, ret, nextId, stop, outbuf, hist, phase, acts, steps, fireAt, crSeen, lastAct, expect>>
 
 Thorough == Tier = "thorough"
 
@@ -196,7 +196,7 @@ Init ==
        /\ stop = FALSE /\ outbuf = <<>> /\ hist = <<>>
        /\ phase = "new"
        /\ acts = {} /\ steps = 0
-       /\ fireAt = 0 /\ crSeen = 0
+       /\ fireAt = 0 /\ crSeen = 0 /\ lastAct = ""
 
 (* evaluate the reference semantics (a separate step so that TLC's workers share *)
 (* the work; initial states are enumerated sequentially)                         *)
@@ -205,7 +205,7 @@ Prepare ==
     /\ LET st == Stream(prog, query, Depth) IN
        /\ expect' = IF HasE(st, "over") THEN <<>> ELSE Segments(st, query, <<>>)
        /\ phase' = IF HasE(st, "over") THEN "outside" ELSE "idle"
-    /\ UNCHANGED <<prog, query, nodes, stack, ret, nextId, stop, outbuf, hist, acts, steps, fireAt, crSeen>>
+    /\ UNCHANGED <<prog, query, nodes, stack, ret, nextId, stop, outbuf, hist, acts, steps, fireAt, crSeen, lastAct>>
 
 NumNone == Cardinality({k \in DOMAIN hist : ~hist[k].some})
 MayAsk  == phase = "idle" /\ NumNone <= ReAsks
